@@ -119,7 +119,7 @@ pub fn run(args: &Args) -> Report {
         }
     }
     // the smallest drivers: every interleaving modulo commutation of the two endpoints' steps (sleep sets)
-    for (a, b) in [((1u32, 1u32), (1u32, 1u32)), ((2, 2), (1, 1)), ((1, 2), (2, 1))] {
+    for (a, b) in if thorough { vec![((1u32, 1u32), (1u32, 1u32)), ((2, 2), (1, 1)), ((1, 2), (2, 1))] } else { vec![((1u32, 1u32), (1u32, 1u32)), ((2, 2), (1, 1))] } {
         let streams = vec![StreamSpec {
             tag: 1,
             opener: 0,
@@ -134,9 +134,10 @@ pub fn run(args: &Args) -> Report {
         ks: if thorough { vec![0, 1, 2, 3] } else { vec![0, 1, 2] },
         env: 0,
         fault: 0,
-        total_wall: Duration::from_secs(if thorough { 900 } else { 25 }),
+        total_wall: Duration::from_secs(if thorough { 900 } else { 50 }),
         max_execs_per_case: if thorough { 2_000_000 } else { 150_000 },
         required_witnesses: xfer::W_CREDIT_ZERO | xfer::W_ACK_SENT | xfer::W_ALL_DONE,
+        adaptive: thorough,
         witness_names: super::c02::WITNESS_NAMES,
     };
     rep.rule = "psim as C02, with one-byte writes in bursts of 2*max(rwnd)+2 per direction; after EVERY step: (black box, reference-decoded wire) Push frames sent by X <= window advertised by Y + credit of Acknowledge frames delivered to X; credit acknowledged by Y <= Push frames that reached Y and <= bytes Y's application consumed; handshake values equal the configured rwnd; no Reset from a side whose application still holds the stream; (white box, flow-table hook) credit_X == window_Y - successful writes_X + credit processed by X, inbound queue <= own window".into();
